@@ -222,7 +222,12 @@ def explore_sampler(mname, model, method, depth, dev_bound, stats):
         ids = [r.id for r in model.reactions]
 
         def bad(check, path, detail, space):
-            viol.append(({"sampler": method, "model": mname, "check": check, "space": space},
+            sg = {"sampler": method, "model": mname, "check": check, "space": space}
+            if any(len(p) > 1 and p[1] == "lo" for p in path):
+                # the random source answered with exactly the lower end of the requested interval (legal for a half-open
+                # interval, of probability ~2^-53): recorded so that a finding about that corner stays separate
+                sg["exact_low_end"] = True
+            viol.append((sg,
                          {"model": mname, "method": method, "path": [list(p) for p in path]},
                          f"{mname}/{method} answers {path}\n{detail}"))
 
@@ -244,6 +249,9 @@ def explore_sampler(mname, model, method, depth, dev_bound, stats):
                 rows = df.values[:, fwd] - df.values[:, rev]
             val = s.validate(df.values)
             for row, code in zip(rows, val):
+                if not np.isfinite(np.asarray(row, dtype=float)).all():
+                    bad("sample is not finite", path, f"row {row} (validate says {code!r})", space)
+                    continue
                 ok, near = independent_check(data, row, s.feasibility_tol, s.bounds_tol)
                 stats["points"] = stats.get("points", 0) + 1
                 if not ok and near > 0.5 * min(s.feasibility_tol, s.bounds_tol):
